@@ -147,6 +147,7 @@ PROPS = {
         covered=[
             'sanitize_terminal_snippet_preserve_len: the resulting bytes contain no C0 control other than \\n/\\t, no DEL and no UTF-8 encoded C1 control, have the same length, and every byte that was not an offender (or the second byte of a C1 pair) is unchanged, for strings of any length',
             'is_terminal_snippet_clean(t) is true exactly when t is terminal-safe in that sense',
+            'ring reader window (src/ring_reader.rs is_utf8_continuation, utf8_expected_len, trim_incomplete_utf8_tail, trim_to_utf8_boundaries_with_line): exactly the leading continuation bytes are dropped (offset advanced by their number, line number unchanged since a continuation byte is never a line feed), only an incomplete last code point is dropped at the end, what remains is a sub-window of the input that neither starts with a continuation byte nor stops inside a code point; total for every byte string',
             'col_to_byte_offset_in_line: Some(i) iff 1 <= col <= chars+1 and i is exactly the byte offset of that character (unit crop)',
             'line_starts: exactly 0 and the offset after every line feed, in order, all on char boundaries',
             'crop_line_by_cols: the result is exactly the requested column window of the line, with an ellipsis on each clipped side, and the returned LineCrop matches (start byte, prefix bytes)',
@@ -154,7 +155,7 @@ PROPS = {
             'crop_source_window: every string slice is in range and on a char boundary, every index in bounds, no overflow; the vertical window holds the error line and at most two lines either side; on the error line nothing left of error column + radius is removed',
         ],
         not_covered=['UTF-8 validity of the sanitised bytes (the lossy fallback is therefore not proved dead)',
-                     'that the rebased span still points at the reported column (only its bounds are proved), Snippet::fmt_or_fallback, annotate-snippets rendering; reflected keys, formatter messages, miette; ring_reader trimming'],
+                     'that the rebased span still points at the reported column (only its bounds are proved), Snippet::fmt_or_fallback, annotate-snippets rendering; reflected keys, formatter messages, miette; the ring buffer itself (RingReader::read / get_recent)'],
         assumptions=['String::into_bytes / from_utf8 shims (contracts/snippet.shim.rs)',
                      'str slicing / find / strip / char_indices / chars().count() shims (contracts/crop.shim.rs): slicing panics exactly when an end is not a char boundary or the range is inverted',
                      'a str has at most isize::MAX bytes (assumed allocation invariant); UTF-8 self-synchronisation (an ASCII byte of a valid encoding is a whole character) is PROVED from vstd\'s definition of encode_utf8 (lemma_ascii_byte_char)'],
